@@ -277,6 +277,7 @@ class ServerSet(object):
     ChildrenWatch(self._zk, self._zk_path, self._on_set_changed)
 
   def _send_all_removed(self):
+    self._nodes = set()
     for k in list(self._members.keys()):
       member = self._members.pop(k)
       try:
